@@ -269,7 +269,14 @@ func runCrashWorkload(base string, w c05workload, rep *hx.Report, cf *hx.CasesFi
 			csRun = []int{w.cs*2 + 1, w.cs + 1, w.cs * 2}[cr.rng.Intn(3)]
 			rep.Count("resume-with-other-chunk-size")
 		}
-		res := runXfer(src, out, xferCfg{chunkSize: csRun, streams: w.streams, resume: true, timeout: 8 * time.Second,
+		// now and then the interrupted fetch is repeated WITHOUT resume into the directory that still
+		// holds the metadata of the earlier attempt: that metadata is not read, but it stays on disk
+		// and a kill during this run leaves it there for the next resumed fetch
+		noResume := p.depth > 0 && len(before) > 0 && cr.rng.Intn(4) == 0
+		if noResume {
+			rep.Count("refetch-without-resume-over-old-metadata")
+		}
+		res := runXfer(src, out, xferCfg{chunkSize: csRun, streams: w.streams, resume: !noResume, timeout: 8 * time.Second,
 			recvOpts: func(o *transfer.Options) {
 				o.ResumeStatsFn = func(rel string, skipped, total, verified uint32, totalBytes int64, cs uint32) {
 					recvSkipped.Store(rel, skipped)
@@ -324,6 +331,28 @@ func runCrashWorkload(base string, w c05workload, rep *hx.Report, cf *hx.CasesFi
 		snaps := append([]string{}, cr.snapDirs...)
 		events := append([]crashEvent{}, cr.events...)
 		cr.mu.Unlock()
+		// ---- C04: finished work is not requested again: no chunk the loaded metadata marked
+		// (same file, size and geometry) is received and written a second time in a resumed run
+		// (these runs use no verification tail, and honest metadata never fails verification)
+		if !noResume && res.sendDone && res.recvDone && res.sendErr == nil && res.recvErr == nil {
+			for _, sv := range before {
+				rel, ok := idToRel[sv.fileID]
+				if !ok || sv.fileSize != int64(len(byRel[rel])) || int(sv.chunkSize) != csRun {
+					continue
+				}
+				again := []uint32{}
+				for _, e := range events {
+					if e.name == "recv.chunk.written" && e.file == rel && int(e.idx) < len(sv.bits) && sv.bits[e.idx] {
+						again = append(again, e.idx)
+					}
+				}
+				rep.Count("resume-resend-checked")
+				if len(again) > 0 {
+					rep.Violate("recorded-chunks-sent-again", fmt.Sprintf("%s: the metadata found before the run from %s marked %d chunks complete, yet chunks %v were transferred and written again", rel, p.label, len(sv.bits), again),
+						map[string]any{"workload": fmt.Sprintf("%+v", w), "from": p.label, "file": rel, "again": again})
+				}
+			}
+		}
 		holeResumes := 0
 		for si, sd := range snaps {
 			rep.Evaluations++
@@ -459,7 +488,7 @@ func runC04(cfg config) *hx.Report { return runCrash(cfg, "C04") }
 
 func runCrash(cfg config, prop string) *hx.Report {
 	rep := hx.NewReport(prop)
-	rep.Rule = "workloads (tree seed, chunk size, streams) run with the real endpoints; at hook points (chunk written / marked, sidecar tmp written / renamed, finalize) the output directory is snapshotted = the disk a SIGKILL there would leave; extra metadata flushes are injected at random chunk writes. Each snapshot is (C05) checked chunk by chunk against the source and (C04) resumed from, up to 3 interruptions deep. Non-trivial = a snapshot whose metadata marks some but not all chunks of a file; distinct by (workload, snapshot, bitmap)"
+	rep.Rule = "workloads (tree seed, chunk size, streams) run with the real endpoints; at hook points (chunk written / marked, sidecar tmp written / renamed, finalize) the output directory is snapshotted = the disk a SIGKILL there would leave; extra metadata flushes are injected at random chunk writes; some interrupted fetches are repeated without resume over the metadata the earlier attempt left. Each snapshot is (C05) checked chunk by chunk against the source and (C04) resumed from, up to 3 interruptions deep. Non-trivial = a snapshot whose metadata marks some but not all chunks of a file; distinct by (workload, snapshot, bitmap)"
 	cf := &hx.CasesFile{Dir: cfg.out, Name: prop, Module: "C05", Imports: []string{"Model.Crash", "Corr.C05"}, PerShard: 40}
 	base, _ := os.MkdirTemp("", "c05")
 	defer os.RemoveAll(base)
